@@ -162,11 +162,37 @@ func (fv *FuncVer) loopSpec(fn *ssa.Function, li *loopInfo) (*LoopSpec, string) 
 // ---------------------------------------------------------------------------
 // invariants
 
+// loopVisited: the visited-key set of the map iteration driving the loop at the top frame's current block.
+func (fv *FuncVer) loopVisited(st *State, f *Frame, env *SpecEnv) {
+	if f.block == nil {
+		return
+	}
+	for _, ins := range f.block.Instrs {
+		if nx, ok := ins.(*ssa.Next); ok {
+			if r, ok := nx.Iter.(*ssa.Range); ok {
+				if it, ok := f.regs[r].(*MapIter); ok {
+					saved := st.frames
+					v := it.Visited
+					if g, ok := st.globals[fmt.Sprintf("iter:%d:%s:%s", f.id, r.Parent().Name(), r.Name())]; ok {
+						v = g
+					}
+					_ = saved
+					env.visited = v
+					env.visitedKey = it.MapType.Key()
+					env.iterStart = it.Start
+				}
+			}
+			return
+		}
+	}
+}
+
 func (fv *FuncVer) checkInvariants(st *State, spec *LoopSpec, key, phase string, f *Frame) {
 	if spec == nil {
 		return
 	}
 	env := fv.frameEnv(st, f)
+	fv.loopVisited(st, f, env)
 	for i, cl := range spec.Invariants {
 		label := cl.Name
 		if label == "" {
@@ -182,6 +208,7 @@ func (fv *FuncVer) assumeInvariants(st *State, spec *LoopSpec, f *Frame) {
 		return
 	}
 	env := fv.frameEnv(st, f)
+	fv.loopVisited(st, f, env)
 	for _, cl := range spec.Invariants {
 		st.assume(fv.evalBool(env, cl.Expr))
 	}
@@ -201,6 +228,7 @@ type modSet struct {
 	heaps  map[string]bool
 	all    bool
 	allocs bool
+	callbacks bool
 }
 
 func (fv *FuncVer) havocLoop(st *State, f *Frame, li *loopInfo) {
@@ -243,6 +271,16 @@ func (fv *FuncVer) havocLoop(st *State, f *Frame, li *loopInfo) {
 	sort.Strings(hks)
 	if !ms.all {
 		fv.havocKeys(st, hks)
+	}
+	// ghost locals are changed by callback contracts
+	if ms.callbacks || ms.all {
+		for name, gl := range fv.ghostLocals {
+			cur, ok := st.globals["gl:"+name]
+			if !ok {
+				cur = gl.init
+			}
+			st.globals["gl:"+name] = fv.ctx.Fresh("gl_"+name, cur.Sort)
+		}
 	}
 	// map iterator visited sets of ranges declared in this frame (loop carried)
 	for k, v := range st.globals {
@@ -522,6 +560,7 @@ func (fv *FuncVer) modCall(st *State, f *Frame, ci ssa.CallInstruction, ms *modS
 			}
 		}
 	}
+	ms.callbacks = true
 	if fv.block != nil && fv.block.Flags["callbacks"] == "pure" {
 		return
 	}
